@@ -34,6 +34,22 @@ pub struct ClientLog {
     pub results: Vec<Option<(Result<String, String>, Instant)>>,
     pub extra: Option<Result<String, String>>,
     pub done: bool,
+    /// panics raised inside the library while the client was driving it
+    pub panics: Vec<String>,
+}
+
+fn panic_text(e: tokio::task::JoinError) -> Option<String> {
+    e.is_panic().then(|| {
+        let p = e.into_panic();
+        p.downcast_ref::<String>().cloned().or_else(|| p.downcast_ref::<&str>().map(|s| (*s).to_string())).unwrap_or_else(|| "panic".into())
+    })
+}
+
+/// A panic inside the library is a verdict for the case it happened in, whatever the case was after.
+pub fn panic_problems(log: &Arc<Mutex<ClientLog>>, problems: &mut Vec<(String, String)>) {
+    for p in &log.lock().unwrap().panics {
+        problems.push(("panic".into(), format!("the library panicked: {}", p.chars().take(200).collect::<String>())));
+    }
 }
 
 pub struct Servers {
@@ -98,7 +114,23 @@ pub struct ClientPlan {
     pub collect_delay: Duration,
 }
 
-async fn drive<T>(connect: impl std::future::Future<Output = Result<Session<T>, netconf::Error>>, plan: ClientPlan, log: Arc<Mutex<ClientLog>>)
+async fn drive<T>(connect: impl std::future::Future<Output = Result<Session<T>, netconf::Error>> + Send + 'static, plan: ClientPlan, log: Arc<Mutex<ClientLog>>)
+where
+    T: Transport + Send + Sync + 'static,
+    T::SendHandle: Send + Sync + 'static,
+    T::RecvHandle: Send + Sync + 'static,
+{
+    let l2 = log.clone();
+    if let Err(e) = tokio::spawn(drive_inner(connect, plan, log)).await {
+        if let Some(p) = panic_text(e) {
+            let mut l = l2.lock().unwrap();
+            l.panics.push(p);
+            l.done = true;
+        }
+    }
+}
+
+async fn drive_inner<T>(connect: impl std::future::Future<Output = Result<Session<T>, netconf::Error>>, plan: ClientPlan, log: Arc<Mutex<ClientLog>>)
 where
     T: Transport + 'static,
     T::SendHandle: 'static,
@@ -164,7 +196,11 @@ where
         }
     }
     for t in tasks {
-        _ = t.await;
+        if let Err(e) = t.await {
+            if let Some(p) = panic_text(e) {
+                log.lock().unwrap().panics.push(p);
+            }
+        }
     }
     if plan.followup {
         let r = match session.rpc::<Get, _>(|b| b.finish()).await {
@@ -396,6 +432,7 @@ pub fn run_seg(servers: &Servers, case: &SegCase) -> SegOutcome {
     }
     let observed_reads = peers::take_reads();
     peer.close(CloseKind::Eof);
+    panic_problems(&log, &mut problems);
     running.task.abort();
     SegOutcome { problems, reads_verified, observed_reads }
 }
@@ -443,6 +480,7 @@ pub fn run_deep(servers: &Servers, xport: Xport, n: usize) -> Vec<(String, Strin
         }
     }
     peer.close(CloseKind::Eof);
+    panic_problems(&log, &mut problems);
     running.task.abort();
     problems
 }
@@ -687,12 +725,14 @@ pub struct CloseCase {
     pub reply_prefix: usize,
     /// SSH only: the peer goes away instead of answering the subsystem request
     pub during_setup: bool,
+    /// the caller sends every request first and then awaits the replies one after the other
+    pub sequential: bool,
     pub desc: String,
 }
 
 pub fn run_close(servers: &Servers, case: &CloseCase) -> Vec<(String, String)> {
     let mut problems = Vec::new();
-    let plan = ClientPlan { requests: case.requests, followup: true, idle_before: if case.idle { Duration::from_millis(150) } else { Duration::ZERO }, collect_after_all_sent: false, big_request: None, collect_delay: Duration::ZERO };
+    let plan = ClientPlan { requests: case.requests, followup: true, idle_before: if case.idle { Duration::from_millis(150) } else { Duration::ZERO }, collect_after_all_sent: case.sequential, big_request: None, collect_delay: Duration::ZERO };
     let zero_before = peers::ZERO_READS.load(std::sync::atomic::Ordering::SeqCst);
     let cpu_before = cpu_time();
     let t0 = Instant::now();
@@ -800,7 +840,12 @@ pub fn run_close(servers: &Servers, case: &CloseCase) -> Vec<(String, String)> {
         if matches!(l.extra, Some(Ok(_))) {
             problems.push(("request-succeeds-on-closed-connection".into(), "a request issued after the close succeeded".into()));
         }
+        let unresolved: Vec<usize> = l.results.iter().enumerate().filter(|(_, r)| r.is_none()).map(|(i, _)| i + 1).collect();
+        if !unresolved.is_empty() && l.established == Some(Ok(())) {
+            problems.push(("pending-operation-never-resolved".into(), format!("requests {unresolved:?} neither returned a value nor an error after the close")));
+        }
     }
+    panic_problems(&log, &mut problems);
     running.task.abort();
     problems
 }
@@ -838,6 +883,7 @@ pub fn run_window_hangup(servers: &Servers, request_bytes: usize) -> Vec<(String
         }
     }
     peer.close(CloseKind::Abort);
+    panic_problems(&log, &mut problems);
     task.abort();
     problems
 }
@@ -885,6 +931,7 @@ pub fn run_window_pipelined(servers: &Servers, request_bytes: usize) -> Vec<(Str
         }
     }
     peer.close(CloseKind::Abort);
+    panic_problems(&log, &mut problems);
     task.abort();
     problems
 }
@@ -925,6 +972,7 @@ pub fn run_reply_then_close(servers: &Servers, xport: Xport, kind: CloseKind, re
         }
     }
     drop(l);
+    panic_problems(&log, &mut problems);
     running.task.abort();
     problems
 }
@@ -948,12 +996,12 @@ pub fn close_cases(thorough: bool) -> Vec<CloseCase> {
             let mut hello_points: Vec<usize> = if thorough { (0..hlen).collect() } else { vec![0, 1, hlen / 2, hlen - 7, hlen - 6, hlen - 3, hlen - 1] };
             hello_points.dedup();
             for n in hello_points {
-                out.push(CloseCase { xport, kind, hello_prefix: Some(n), requests: 1, idle: false, reply_prefix: 0, during_setup: false, desc: format!("close after {n} of {hlen} hello bytes") });
+                out.push(CloseCase { xport, kind, hello_prefix: Some(n), requests: 1, idle: false, reply_prefix: 0, during_setup: false, sequential: false, desc: format!("close after {n} of {hlen} hello bytes") });
             }
             if xport == Xport::Ssh {
-                out.push(CloseCase { xport, kind, hello_prefix: None, requests: 1, idle: false, reply_prefix: 0, during_setup: true, desc: "peer goes away instead of answering the subsystem request".into() });
+                out.push(CloseCase { xport, kind, hello_prefix: None, requests: 1, idle: false, reply_prefix: 0, during_setup: true, sequential: false, desc: "peer goes away instead of answering the subsystem request".into() });
             }
-            out.push(CloseCase { xport, kind, hello_prefix: None, requests: 1, idle: true, reply_prefix: 0, during_setup: false, desc: "close while the established session is idle, then a request".into() });
+            out.push(CloseCase { xport, kind, hello_prefix: None, requests: 1, idle: true, reply_prefix: 0, during_setup: false, sequential: false, desc: "close while the established session is idle, then a request".into() });
             for requests in [0usize, 1, 2] {
                 let total = if requests == 2 { r1 + r2 } else { r1 * requests };
                 let mut points: Vec<usize> = if thorough { (0..total).collect() } else { vec![0, 1, r1 / 2, r1.saturating_sub(6), r1.saturating_sub(1), r1, r1 + 1, total.saturating_sub(3)] };
@@ -961,7 +1009,14 @@ pub fn close_cases(thorough: bool) -> Vec<CloseCase> {
                 points.sort_unstable();
                 points.dedup();
                 for p in points {
-                    out.push(CloseCase { xport, kind, hello_prefix: None, requests, idle: false, reply_prefix: p, during_setup: false, desc: format!("{requests} request(s) outstanding, close after {p} of {total} reply bytes") });
+                    out.push(CloseCase { xport, kind, hello_prefix: None, requests, idle: false, reply_prefix: p, during_setup: false, sequential: false, desc: format!("{requests} request(s) outstanding, close after {p} of {total} reply bytes") });
+                }
+                if requests == 2 {
+                    // the same caller awaits both replies, one after the other
+                    for p in [0, r1 / 2, r1, r1 + 1] {
+                        out.push(CloseCase { xport, kind, hello_prefix: None, requests, idle: false, reply_prefix: p, during_setup: false, sequential: true, desc: format!("2 requests sent then awaited in turn, close after {p} of {total} reply bytes") });
+                    }
+                    out.push(CloseCase { xport, kind, hello_prefix: None, requests: 3, idle: false, reply_prefix: 0, during_setup: false, sequential: true, desc: "3 requests sent then awaited in turn, close before any reply".into() });
                 }
             }
         }
